@@ -62,12 +62,19 @@ PrecStep(s, sample) ==
 
 \* The loop run over a finite script of clock readings (native integers),
 \* consumed pairwise: (reads[1], reads[2]), (reads[3], reads[4]), ...
-RECURSIVE PrecRunAt(_, _, _, _)
-PrecRunAt(reads, f, i, s) ==
-  IF s.done \/ i + 1 > Len(reads) THEN s
-  ELSE PrecRunAt(reads, f, i + 2,
-                 PrecStep(s, IF reads[i + 1] <= reads[i] THEN Zero   \* no tick in between
-                             ELSE Elapsed(FromInt(reads[i]), FromInt(reads[i + 1]), f)))
+\* A pair without a tick in between is a zero sample, which only counts as
+\* an iteration; the fold therefore visits the pairs that saw the counter
+\* move and takes the iteration count from the pair's position.
+RECURSIVE PrecRunAt(_, _, _, _, _)
+PrecRunAt(reads, f, moved, k, s) ==
+  IF s.done \/ k > Len(moved) THEN s
+  ELSE LET j == moved[k]
+       IN PrecRunAt(reads, f, moved, k + 1,
+                    PrecStep([s EXCEPT !.iter = j - 1],
+                             Elapsed(FromInt(reads[2 * j - 1]), FromInt(reads[2 * j]), f)))
 
-PrecRun(reads, f) == PrecRunAt(reads, f, 1, PrecInit)
+PrecRun(reads, f) ==
+  LET moved == SelectSeq([j \in 1..(Len(reads) \div 2) |-> j],
+                         LAMBDA j : reads[2 * j] > reads[2 * j - 1])
+  IN PrecRunAt(reads, f, moved, 1, PrecInit)
 =============================================================================
